@@ -43,9 +43,9 @@ func Families(family string, seed int64, count int) []Driver {
 			if d == "stop" {
 				cfg.Mode = "rev"
 			}
-			out = append(out, newWorkload(name, s, workloadOpts{cfg: cfg, nRPC: 1 + rng.Intn(3), disturb: d, volume: i%3 == 0}))
+			out = append(out, newWorkload(name, s, workloadOpts{cfg: cfg, nRPC: 1 + rng.Intn(3), disturb: d, volume: i%3 == 0, lazy: i%5 == 4, streamingOnly: i%5 == 4}))
 		case "cancel":
-			out = append(out, newWorkload(name, s, workloadOpts{cfg: cfg, nRPC: 1 + rng.Intn(3), disturb: "cancel", volume: i%3 == 0, meta: i%2 == 0, precancel: i%2 == 1}))
+			out = append(out, newWorkload(name, s, workloadOpts{cfg: cfg, nRPC: 1 + rng.Intn(3), disturb: "cancel", volume: i%3 == 0, meta: i%2 == 0, precancel: i%2 == 1, lazy: i%6 == 5}))
 		case "shutdown":
 			d := "shutdown"
 			if cfg.Mode == "rev" {
